@@ -205,6 +205,17 @@ class C01(Check):
                     if got != exp:
                         acc.violation('record-decoded-differently-through-container:' + label[:2], {'kind': 'container', 'seq': list(seq), 'label': label},
                                       {'got': repr(got)[:300], 'expected': repr(exp)[:300]})
+            # a dump cut in the middle of a record (parsing it raises), then a complete dump, in the same process
+            for cut in (1, 20, 63, 64 + 31):
+                whole = B.v2([], 0, [P[0], P[1], P[2]])
+                try:
+                    events(whole[:len(whole) - cut])
+                except Exception:
+                    pass
+                got = events(B.v2([], 0, [P[3], P[4]]))
+                acc.case(nontrivial=True, transitions=5)
+                if got != [ref_decode(P[3]), ref_decode(P[4])]:
+                    acc.violation('record-decoded-differently-through-container:after-a-failed-parse', {'kind': 'container-after-failure', 'cut': cut}, {'got': repr(got)[:300]})
             # two parses alive at once
             a = B.v2([], 0, [P[0], P[1], P[2]])
             b = B.v2([], 0, [P[3], P[4], P[5]])
